@@ -185,13 +185,18 @@ static void utf8_case(const uint8_t* s, size_t n, int entries) {
     if (e == 3) {
       /* attach valid text first, then edit the same block in place and attach it again */
       static const unsigned char valid[] = {0xc3, 0xa9, 0xe2, 0x82, 0xac, 'o', 'k'};
-      size_t cap = n > sizeof valid ? n : sizeof valid;
+      /* two variants: the first attach has the same length as the second (same pointer, same length, edited bytes),
+       * or a different one */
+      bool same_len = n > 0 && (vh_hash(s, n) & 1);
+      size_t first_len = same_len ? n : sizeof valid;
+      size_t cap = n > first_len ? n : first_len;
       it = cbor_new_definite_string();
       unsigned char* h = ta_malloc(cap);
       if (it && h) {
-        memcpy(h, valid, sizeof valid);
-        cbor_string_set_handle(it, h, sizeof valid);
-        if (cbor_string_codepoint_count(it) != 4) vh_violation("codepoint-count-differs", "valid text c3a9e282ac6f6b reports %zu code points", cbor_string_codepoint_count(it));
+        if (same_len) memset(h, 'a', n); else memcpy(h, valid, sizeof valid);
+        cbor_string_set_handle(it, h, first_len);
+        size_t c0 = same_len ? n : 4;
+        if (cbor_string_codepoint_count(it) != c0) vh_violation("codepoint-count-differs", "valid %zu-byte text reports %zu code points, expected %zu", first_len, cbor_string_codepoint_count(it), c0);
         if (n) memcpy(h, s, n);
         cbor_string_set_handle(it, h, n);
       }
